@@ -889,40 +889,54 @@ theorem C13_rejects_missing_config (T : Tables) (fs : FileSys) (l r : List Strin
     rw [if_pos hT, cfgExtra_skip fs _ _ hl, configExtra.eq_def]
     simp [Except.map, bind, Except.bind]
 
-/- Full statement (NOT provable — genuine defect, see known_findings.txt
-   `parse-numbers-valueerror`):
-     every string outside the documented vector grammar makes `parseNumbers` return `.error .exit`.
-   It fails for fields that pass the character filter but are not floats (`1.2.3`, `1-2`, `--1`,
-   `.`, `-`): the code calls `float()` on them and the ValueError is not caught.  Proved instead:
-   all other malformed shapes are rejected with the error message, and the failing shape raises. -/
-/-- malformed vector syntax, the part that holds: an illegal character, an empty field, more than
-three fields and a zero step are rejected with the error message -/
-theorem C13_rejects_vector_partial :
+/-- the documented shapes of one comma-separated part: `a`, `a:b`, `a:s:b` with `s ≠ 0`, every
+field a decimal number -/
+def WellFormedPart (fs : List Fld) : Prop :=
+  (∃ a, fs = [.num a]) ∨ (∃ a b, fs = [.num a, .num b]) ∨
+  (∃ a s b, s ≠ 0 ∧ fs = [.num a, .num s, .num b])
+
+/-- **C13_rejects_vector.**  Malformed vector syntax is rejected with the error message (exit
+status 1), never anything else: a character outside `-0123456789.:,`; any part that is not one of
+the documented shapes — an empty field, a field that is not a decimal number (`1.2.3`, `1-2`, `-`),
+more than three fields, a zero step; and a malformed part anywhere in a comma list whose earlier
+parts are fine.  (Full strength since repo commit aace4b0; before it non-float fields raised.) -/
+theorem C13_rejects_vector :
     (∀ (s : String) (d : Bool), s.toList.any (fun c => !allowed c) = true →
         parseNumbers s d = .error .exit) ∧
-    (∀ (d : Bool) (fs : List Fld), Fld.empty ∈ fs → evalFields d fs = .error .exit) ∧
-    (∀ (d : Bool) (fs : List Fld), 3 < fs.length → (∀ f ∈ fs, f ≠ .empty) →
-        evalFields d fs = .error .exit) ∧
-    (∀ (d : Bool) (a b : Rat), evalFields d [.num a, .num 0, .num b] = .error .exit) ∧
+    (∀ (d : Bool) (fs : List Fld), ¬ WellFormedPart fs → evalFields d fs = .error .exit) ∧
     (∀ (d : Bool) (ps qs : List (List Fld)) (v : List Rat) (p : List Fld),
         evalParts d ps = .ok v → evalFields d p = .error .exit →
         evalParts d (ps ++ p :: qs) = .error .exit) := by
-  refine ⟨?_, ?_, ?_, ?_, ?_⟩
+  refine ⟨?_, ?_, ?_⟩
   · intro s d h
     simp [parseNumbers, h]
-  · intro d fs h
-    have : fs.any (· == Fld.empty) = true := by
-      rw [List.any_eq_true]; exact ⟨_, h, by simp⟩
-    simp [evalFields, this]
-  · intro d fs hlen hne
-    have : fs.any (· == Fld.empty) = false := by
-      rw [List.any_eq_false]; intro f hf; simpa using hne f hf
-    unfold evalFields
-    rw [this]
-    match fs, hlen with
-    | _ :: _ :: _ :: _ :: _, _ => simp
-  · intro d a b
-    simp [evalFields, Fld.get, bind, Except.bind]
+  · intro d fs hwf
+    unfold WellFormedPart at hwf
+    match fs with
+    | [] => simp [evalFields]
+    | [f] =>
+      cases f with
+      | num a => exact absurd (Or.inl ⟨a, rfl⟩) hwf
+      | empty => simp [evalFields]
+      | bad => simp [evalFields, Fld.get, bind, Except.bind]
+    | [f, g] =>
+      cases f <;> cases g <;>
+        first
+        | (simp [evalFields, Fld.get, bind, Except.bind]; done)
+        | (rename_i a b; exact absurd (Or.inr (Or.inl ⟨a, b, rfl⟩)) hwf)
+    | [f, g, h] =>
+      cases f <;> cases g <;> cases h <;>
+        first
+        | (simp [evalFields, Fld.get, bind, Except.bind]; done)
+        | (rename_i a s b
+           by_cases hs : s = 0
+           · subst hs; simp [evalFields, Fld.get, bind, Except.bind]
+           · exact absurd (Or.inr (Or.inr ⟨a, s, b, hs, rfl⟩)) hwf)
+    | f :: g :: h :: i :: rest =>
+      unfold evalFields
+      split
+      · rfl
+      · rfl
   · intro d ps qs v p hps hp
     induction ps generalizing v with
     | nil => simp [evalParts, hp, bind, Except.bind]
@@ -937,10 +951,11 @@ theorem C13_rejects_vector_partial :
         | error e => rw [hxs] at hps; cases hps
         | ok z => rw [ih z hxs]
 
-/-- the defect itself, on the witness the harness replays (`parse_numbers("1.2.3")`): a field
-that is not a float is *not* rejected with the error message; it raises -/
-example : evalFields false [.bad] = .error (.raise "ValueError") := by
-  simp [evalFields, Fld.get, bind, Except.bind]
+/-- non-vacuity: the shapes the repaired defect was about are not well-formed parts -/
+example : ¬ WellFormedPart [.bad] ∧ ¬ WellFormedPart [.num 1, .bad, .num 3] ∧
+    ¬ WellFormedPart [.num 1, .num 0, .num 3] ∧ WellFormedPart [.num 0, .num (1 / 10), .num 1] := by
+  refine ⟨?_, ?_, ?_, Or.inr (Or.inr ⟨0, 1 / 10, 1, by norm_num, rfl⟩)⟩ <;>
+    (intro h; rcases h with ⟨a, h⟩ | ⟨a, b, h⟩ | ⟨a, s, b, hs, h⟩ <;> simp_all)
 
 /-! ## Wiring (GenEq): the regenerated table contains the documented one -/
 
